@@ -13,7 +13,9 @@
     pend       update() has run under the mutex and the scan (refresh) is still to come —
                file-system operations may fall in between: the mutex does not stop the FS
     queue      inotify events not yet consumed by the watcher goroutine.
-  `createInMask` and `seenForcesRefresh` are the two repairs; the pinned tree is (false, false).
+  `createInMask`, `seenForcesRefresh` and `overflowResyncs` are the three repairs; the pinned tree is (false, false, false).
+  Events may be lost: a `drop` step replaces the newest queued event by the kernel's overflow marker `.lost`
+  (an operation whose event is dropped is the operation followed by `drop`).
 -/
 import CdiModel.Basic
 import CdiModel.Generated.Facts
@@ -26,18 +28,20 @@ inductive Ev where
   | createOnly  -- only a Create of a Spec-named file (moved or linked in, bare creat): passes iff Create is in the mask
   | other       -- events on other names (temp files): dropped by the extension filter or harmless
   | rmdir       -- Remove of the watched directory itself
+  | lost        -- the kernel's overflow marker: events were dropped because the queue was full
   deriving Repr, DecidableEq
 
 structure Cfg where
   createInMask : Bool
   seenForcesRefresh : Bool
+  overflowResyncs : Bool   -- the watcher reacts to the overflow marker (re-adds every watch, rescans)
   deriving Repr, DecidableEq
 
 /-- does `Create` pass the event mask of the tree under test? (regenerated fact F7) -/
 def createInGeneratedMask : Bool := Generated.eventMask.contains "Create"
 
-def repaired : Cfg := ⟨true, true⟩
-def pinned : Cfg := ⟨false, false⟩
+def repaired : Cfg := ⟨true, true, true⟩
+def pinned : Cfg := ⟨false, false, false⟩
 
 structure St where
   dirExists : Bool
@@ -54,6 +58,7 @@ def passes (c : Cfg) : Ev → Bool
   | .createOnly => c.createInMask
   | .other => false
   | .rmdir => true
+  | .lost => c.overflowResyncs
 
 def emit (s : St) (e : Ev) : St := if s.kwatch then { s with queue := s.queue ++ [e] } else s
 
@@ -104,7 +109,9 @@ def cacheStep (c : Cfg) (s : St) : CacheOp → Option St
     | e :: rest =>
       let s := { s with queue := rest }
       if !passes c e then some s else
-      let s1 := (update c s).1
+      -- on the overflow marker every belief is dropped first (`resync`), then the watches are added again
+      let s0 := if e = .lost then { s with tracked := false } else s
+      let s1 := (update c s0).1
       let s2 := if e = .rmdir ∧ s.tracked then { s1 with tracked := false } else s1
       some { s2 with pend := true }
   | .scan => if s.pend then some { s with pend := false, stale := false, seen := s.dirExists } else none
@@ -119,11 +126,16 @@ def cacheStep (c : Cfg) (s : St) : CacheOp → Option St
 inductive Step where
   | fs (o : FsOp)
   | cache (o : CacheOp)
+  | drop           -- the kernel drops the most recently queued event (queue full) and leaves its overflow marker
   deriving Repr, DecidableEq
+
+/-- the queue after its newest event was lost to an overflow -/
+def dropNewest (q : List Ev) : Option (List Ev) := if q = [] then none else some (q.dropLast ++ [.lost])
 
 def step (c : Cfg) (s : St) : Step → Option St
   | .fs o => fsStep s o
   | .cache o => cacheStep c s o
+  | .drop => (dropNewest s.queue).map (fun q => { s with queue := q })
 
 /-- run a schedule, ignoring steps that are not enabled -/
 def runSteps (c : Cfg) (s : St) (l : List Step) : St :=
